@@ -14,6 +14,8 @@ package main
 //         F<v>   final report of v used units (FINAL trigger: the rating group is settled in debit mode - one rating
 //                request for the price, one account-balance request that refunds / debits the difference), deadline 14 s
 //         W<ms>  wait
+//         K<0|1> K1: the certificate and key files named in both Diameter sections are replaced by another valid pair while the
+//                servers keep running with the pair they loaded (a certificate rotated on disk); K0: the first pair again
 //         S<0|1> (first step, written by the generator) whether the account-balance server was measured to handle the requests
 //                for one account one after the other (peerserial.go); the model's world lets requests wait accordingly
 //         N<k>   k prompt online updates (for the connection count)
@@ -427,6 +429,10 @@ func runPeer(line string, t []string) string {
 			sc.mu.Unlock()
 		case 'W':
 			time.Sleep(time.Duration(arg) * time.Millisecond)
+		case 'K':
+			// K1: the key pair named in both Diameter sections is replaced by another valid pair (the servers keep running with the
+			// pair they loaded when they started: a certificate rotated on disk); K0: back to the first pair
+			rotateClientKeyPair(arg == 1)
 		case 'S':
 			// S1 / S0: what the generator measured about the account-balance server (for the model; nothing to do here)
 		case 'Q':
@@ -558,6 +564,8 @@ func genPeer(o genOpts, w *bufio.Writer) {
 		}
 		scen(strings.Join(sb, " ") + " W2000 C")
 	}
+	// the key pair named in the configuration is replaced while the servers run: requests go on as before, nothing stays behind
+	scen("K1 U100 U228 K0 U484 K1 N10 C")
 	// a peer that repeats its answers (prompt and late ones)
 	scen("D3 U100 U228 D2 U484 C")
 	scen(fmt.Sprintf("D3 A%d U100 W3000 U228 U484 C", late))
